@@ -63,10 +63,43 @@ func loadProg(repo string) (*Prog, error) {
 	}
 	// index functions of the module (including anonymous ones)
 	for fn := range ssautil.AllFunctions(prog) {
-		if fn.Pkg == nil || !strings.HasPrefix(fn.Pkg.Pkg.Path(), modPath) {
+		if fn.Pkg == nil || !(strings.HasPrefix(fn.Pkg.Pkg.Path(), modPath) || strings.HasPrefix(fn.Pkg.Pkg.Path(), "github.com/weedbox/pokerface")) {
 			continue
 		}
 		P.byName[fn.Pkg.Pkg.Path()+"::"+localFuncName(fn)] = fn
+	}
+	// methods of unexported types and their anonymous functions are not always in AllFunctions
+	var addFn func(fn *ssa.Function)
+	addFn = func(fn *ssa.Function) {
+		if fn == nil || fn.Pkg == nil {
+			return
+		}
+		k := fn.Pkg.Pkg.Path() + "::" + localFuncName(fn)
+		if _, ok := P.byName[k]; ok {
+			return
+		}
+		P.byName[k] = fn
+		for _, a := range fn.AnonFuncs {
+			addFn(a)
+		}
+	}
+	for path, sp := range P.spkgs {
+		if !(strings.HasPrefix(path, modPath) || strings.HasPrefix(path, "github.com/weedbox/pokerface")) {
+			continue
+		}
+		for _, m := range sp.Members {
+			switch mm := m.(type) {
+			case *ssa.Function:
+				addFn(mm)
+			case *ssa.Type:
+				for _, t := range []types.Type{mm.Type(), types.NewPointer(mm.Type())} {
+					ms := prog.MethodSets.MethodSet(t)
+					for i := 0; i < ms.Len(); i++ {
+						addFn(prog.MethodValue(ms.At(i)))
+					}
+				}
+			}
+		}
 	}
 	P.scanGlobals()
 	return P, nil
@@ -108,7 +141,12 @@ func (P *Prog) loadContracts() error {
 				P.ifaceContracts[strings.TrimSpace(strings.TrimPrefix(c.FuncName, "iface "))] = c
 				continue
 			}
-			fn := P.byName[path+"::"+c.FuncName]
+			key := path + "::" + c.FuncName
+			if strings.HasPrefix(c.FuncName, "extern ") {
+				// extern <import path>::<local name>: a function of a dependency, verified against the module-cache source
+				key = strings.TrimSpace(strings.TrimPrefix(c.FuncName, "extern "))
+			}
+			fn := P.byName[key]
 			if fn == nil {
 				P.contractErrs = append(P.contractErrs, fmt.Sprintf("%s:%d: no function %q in package %s", shortFile(c.File), c.Line, c.FuncName, sp.Pkg.Name()))
 				continue
@@ -128,6 +166,17 @@ func (c *Contract) Hash() string {
 }
 
 // spec lookup: package-local first, then any other package of the module (shared vocabulary).
+func (P *Prog) specIn(home string, pkg *types.Package, name string) *SpecFn {
+	if home != "" {
+		if cf := P.cfiles[home]; cf != nil {
+			if s := cf.Specs[name]; s != nil {
+				return s
+			}
+		}
+	}
+	return P.spec(pkg, name)
+}
+
 func (P *Prog) spec(pkg *types.Package, name string) *SpecFn {
 	if pkg != nil {
 		if cf := P.cfiles[pkg.Path()]; cf != nil {
